@@ -3,7 +3,7 @@
    msgs_of s c is the message record of connection c; all_recs h c m = the messages of selection groups 0..m-1, each stamped seq_in = its group
    number, in the order they were sent (seq_out = 0,1,2,... without gap or repeat: AsyncLaws3).  *)
 From Coq Require Import List Arith ZArith Bool Sorted.
-From Rex Require Import KahnL AsyncModel2 AsyncStable ConflInv RexDet AsyncLaws AsyncLaws2 AsyncLaws3 AsyncLaws4 AsyncLaws5 AsyncLaws6 Consume BlockCount BlockCount2 WindowPush.
+From Rex Require Import KahnL AsyncModel2 AsyncStable ConflInv RexDet AsyncLaws AsyncLaws2 AsyncLaws3 AsyncLaws4 AsyncLaws5 AsyncLaws6 Consume ConsumeB BlockCount BlockCount2 WindowPush.
 Open Scope Z_scope.
 
 (* the record of a connection is exactly the concatenation of its selection groups: every message once, in order, seq_in = the step (group) that consumed it *)
@@ -75,4 +75,27 @@ Print Assumptions C03_blocking_count_first_skip.
 Theorem C03_blk_cnt_closed_form : forall (G : cfg) (c N : nat), let nn := node G (c_in (conn G c)) in let nm := node G (c_out (conn G c)) in 0 < n_period nn -> 0 < n_period nm -> let sched := fun k : Z => n_period nn * k + n_phase nn in let P := n_period nm in let phm := n_phase nm in Z.of_nat (blk_cnt G c N) = (if (N =? 0)%nat then if c_skip (conn G c) then cum_lt P phm (sched 0) else cum_le P phm (sched 0) else if c_skip (conn G c) then cum_lt P phm (sched (Z.of_nat N)) - cum_lt P phm (sched (Z.of_nat N - 1)) else cum_le P phm (sched (Z.of_nat N)) - cum_le P phm (sched (Z.of_nat N - 1))).
 Proof. exact @blk_cnt_closed_form. Qed.
 Print Assumptions C03_blk_cnt_closed_form.
+(* consumption clause, BUFFER jitter (now a theorem, no longer correspondence-only): with the counts computed exactly as push_expected_nonblocking computes them (count_buffer on the not yet consumed suffix), message j with sequence number k is consumed by step i iff step i may take it - it starts at/after the arrival (strictly after on a skipped connection) and not before the expected arrival k * period_sender + phase - and step i-1 may not *)
+Theorem C03_buffer_first_fitting : forall (skip : bool) (Pm phc : Z) (starts : nat -> Z) (l : list stamp), 0 <= Pm -> (forall i : nat, starts i <= starts (S i)) -> arrivals_sorted l -> seqs_sorted l -> forall i j : nat, (j < length l)%nat -> (nb_taken (count_buffer skip Pm phc) starts l i <= j < nb_taken (count_buffer skip Pm phc) starts l (S i))%nat <-> takesB skip Pm phc (starts i) (nth j l dstamp) = true /\ (i = 0%nat \/ takesB skip Pm phc (starts (i - 1)%nat) (nth j l dstamp) = false).
+Proof. exact @buffer_first_fitting. Qed.
+Print Assumptions C03_buffer_first_fitting.
 
+(* the same for LATEST, stated on the model's own counting function count_latest *)
+Theorem C03_latest_first_fitting : forall (skip : bool) (starts : nat -> Z) (l : list stamp), (forall i : nat, starts i <= starts (S i)) -> arrivals_sorted l -> forall i j : nat, (j < length l)%nat -> (nb_taken (count_latest skip) starts l i <= j < nb_taken (count_latest skip) starts l (S i))%nat <-> takes skip (starts i) (snd (nth j l dstamp)) = true /\ (i = 0%nat \/ takes skip (starts (i - 1)%nat) (snd (nth j l dstamp)) = false).
+Proof. exact @latest_first_fitting. Qed.
+Print Assumptions C03_latest_first_fitting.
+
+(* never consumed by a step that started before it arrived, nor before its expected arrival *)
+Theorem C03_buffer_never_early : forall (skip : bool) (Pm phc : Z) (starts : nat -> Z) (l : list stamp), 0 <= Pm -> (forall i : nat, starts i <= starts (S i)) -> arrivals_sorted l -> seqs_sorted l -> forall i j : nat, (j < length l)%nat -> (nb_taken (count_buffer skip Pm phc) starts l i <= j < nb_taken (count_buffer skip Pm phc) starts l (S i))%nat -> Z.of_nat (fst (nth j l dstamp)) * Pm + phc <= starts i /\ snd (nth j l dstamp) <= starts i /\ (skip = true -> snd (nth j l dstamp) < starts i).
+Proof. exact @buffer_never_early. Qed.
+Print Assumptions C03_buffer_never_early.
+
+(* bridge: the cumulative count of the expectation actor over the channel histories of the net is nb_taken over the arrival stamps and announced step times *)
+Theorem C03_nb_consumed_is_nb_taken : forall (G : cfg) (h : nat -> list tok) (c : nat) (l : list stamp) (starts : nat -> Z) (n : nat), h (TsIn G c) = map tsin l -> (forall i : nat, (i < n)%nat -> exists k : nat, nth_error (h (Next G c)) i = Some (TSched k (starts i))) -> forall i : nat, (i <= n)%nat -> nb_consumed G h c i = nb_taken (cnt_fn G c) starts l i.
+Proof. exact @nb_consumed_taken. Qed.
+Print Assumptions C03_nb_consumed_is_nb_taken.
+
+(* non-vacuity: BUFFER holds an early message back until its expected arrival; LATEST does not *)
+Theorem C03_buffer_example : map (nb_taken (count_buffer false 8 2) (fun i : nat => 10 * Z.of_nat i) ex_stamps) (0%nat :: 1%nat :: 2%nat :: 3%nat :: 4%nat :: nil) = 0%nat :: 0%nat :: 2%nat :: 2%nat :: 4%nat :: nil /\ map (nb_taken (count_latest false) (fun i : nat => 10 * Z.of_nat i) ex_stamps) (0%nat :: 1%nat :: 2%nat :: 3%nat :: 4%nat :: nil) = 0%nat :: 0%nat :: 2%nat :: 2%nat :: 4%nat :: nil /\ map (nb_taken (count_buffer false 8 12) (fun i : nat => 10 * Z.of_nat i) ex_stamps) (0%nat :: 1%nat :: 2%nat :: 3%nat :: 4%nat :: nil) = 0%nat :: 0%nat :: 0%nat :: 2%nat :: 3%nat :: nil.
+Proof. exact @ex_buffer. Qed.
+Print Assumptions C03_buffer_example.
